@@ -12,7 +12,9 @@ MANIFEST = {
             "string literals, object / array literals, member / index / call chains, all unary, binary and conditional operators), that "
             "parsing the printed text yields exactly that expression and stops exactly at the end of the binding (parenthesisation, "
             "operator spacing, `?.` / `--` / `++` avoidance, literal escapes are all covered by it); the value-level theorems "
-            "(C14_static_value_roundtrip, C14_single_binding_value_roundtrip, C14_mixed_value_roundtrip) prove that the value parser "
+            "(C14_static_value_roundtrip, C14_single_binding_value_roundtrip, C14_mixed_value_roundtrip; C14_parse_print_parse: for EVERY "
+            "source text the parser accepts, the returned expression - unless it contains a float literal - is printed as a text that "
+            "parses back to exactly that expression) prove that the value parser "
             "(static pieces with character references, bindings, the chain it builds) reads the printed text of a static value, of a "
             "single binding and of every alternation of text pieces and bindings back as the same value, for any entity table that "
             "knows &lt; &quot; &amp; and for both callers' `until` predicates. (2) escaping theorems: a re-printed "
@@ -37,7 +39,7 @@ THEOREMS = ["C14_static_text_roundtrip", "C14_static_text_no_binding_start", "C1
             "C14_expression_print_parse_roundtrip", "C14_expression_roundtrip_any_tail", "C14_integer_literal_roundtrip",
             "C14_binding_print_parse_roundtrip", "C14_mixed_value_roundtrip", "C14_static_value_roundtrip",
             "C14_single_binding_value_roundtrip", "C14_resolved_expression_roundtrip",
-            "C14_template_data_roundtrip"]
+            "C14_template_data_roundtrip", "C14_parser_image", "C14_parse_print_parse"]
 
 
 def _norm_nodes(nodes):
